@@ -155,6 +155,7 @@ func checkC05(c C05Case, r *Rec) *Violation {
 	}
 	kenv := &m.Env{Vars: u.Bound(), Custom: customModel()}
 	k := kenv.Kleene(c.Tree, avail)
+	full, _ := (&m.Env{Vars: u.Bound(), Custom: customModel()}).Eval(c.Tree)
 	nUnavail := 0
 	for _, n := range c.Tree.VarNames() {
 		if !avail[n] {
@@ -173,7 +174,8 @@ func checkC05(c C05Case, r *Rec) *Violation {
 		}
 		f := NewFetcher(u, cc, log)
 		f.Avail = avail
-		o := Safe(func() (eval.Value, error) { return e.TryEval(f.Ctx()) })
+		ctxSeq := f.Ctx()
+		o := Safe(func() (eval.Value, error) { return e.TryEval(ctxSeq) })
 		if o.Panic != nil {
 			return Violf("C05: TryEval panics\n%s\n%v", describe(mask, e), o)
 		}
@@ -187,6 +189,16 @@ func checkC05(c C05Case, r *Rec) *Violation {
 		} else if o.Val != eval.DNE {
 			// more informative than Kleene is allowed; C04 checks such answers for soundness
 			r.Class("more-informative-than-kleene")
+		}
+		// the same Ctx again after every variable has become available (as after Set): the
+		// answer is now the full value, nothing may be remembered from the first attempt
+		if nUnavail > 0 {
+			f.Avail = nil
+			o2 := Safe(func() (eval.Value, error) { return e.TryEval(ctxSeq) })
+			if o2.Panic != nil || o2.Err != nil || !m.EqualVal(o2.Val, full) {
+				return Violf("C05: TryEval on the same Ctx after all variables became available does not return the value of the expression\n%s\nfirst attempt=%v\nsecond attempt=%v\nvalue=%s", describe(mask, e), o, o2, refString(full, nil))
+			}
+			f.Avail = avail
 		}
 		// TryEvalBool mirrors TryEval
 		f2 := NewFetcher(u, cc, log)
